@@ -141,8 +141,10 @@ def run(ctx):
     ctx.ob("N-EMPTY", "parse_atom", ok, "set_atom_name is not dominated by a non-empty test of the name buffer")
     fa = f.mir_fn("fold_atom", module="lexical_fold::impl_enum")
     g = mir.cfg(fa)
-    name_arg = next(i for i in range(1, fa["arg_count"] + 1) if fa["locals"][i]["name"] == "name")
-    prefix_arg = next(i for i in range(1, fa["arg_count"] + 1) if fa["locals"][i]["name"] == "prefix")
+    # fold_atom(folder, prefix, name): parameters by position, not by name
+    if fa["arg_count"] != 3:
+        raise AnchorMissing("fold_atom(folder, prefix, name)")
+    prefix_arg, name_arg = 2, 3
     good = set()
     for bi, t in g.calls("is_empty"):
         r, pth = g.resolve_operand(t["args"][0])
@@ -185,7 +187,7 @@ def run(ctx):
     okg = len(guards_) == 1
     if okg:
         cs = conjuncts(guards_[0]["cond"])
-        okg = any(c["k"] == "MethodCall" and c["method"] == "is_empty" and field_path(c["recv"]) == ("name",) for c in cs) \
+        okg = any(c["k"] == "MethodCall" and c["method"] == "is_empty" and field_path(c["recv"]) == (fa["locals"][name_arg]["name"],) for c in cs) \
             and not any(c["k"] == "Binary" and c["op"] in ("||", "Or") for c in cs)
     ctx.ob("N-EMPTY", "fold_atom rejects ONLY empty names (the Err guard is a conjunction containing name.is_empty())", okg,
            "one early Err return guarded by `name.is_empty() && ..` expected")
